@@ -738,6 +738,28 @@ impl Context {
                 }
                 _ => panic!("invalid map type {:?}", map),
             },
+            // a set literal (or `[]` for an empty map) inside a const container: a nested lazily initialised
+            // static, like a map literal above
+            (Literal::List(_), CodegenTy::StaticRef(inner))
+                if matches!(
+                    **inner,
+                    CodegenTy::Set(_)
+                        | CodegenTy::BTreeSet(_)
+                        | CodegenTy::Map(_, _)
+                        | CodegenTy::BTreeMap(_, _)
+                ) =>
+            {
+                let lazy_inner =
+                    self.def_lit("INNER", lit, &mut CodegenTy::LazyStaticRef(inner.clone()))?;
+                let stream = format! {
+                    r#"{{
+                        {lazy_inner}
+                        &*INNER
+                    }}"#
+                }
+                .into();
+                (stream, false)
+            }
             (Literal::List(els), CodegenTy::Array(inner, _)) => {
                 let stream = els
                     .iter()
